@@ -71,7 +71,7 @@ def blocks(tier, seed):
         for i in idx:
             out.append({"kind": "single", "i": i, "vendor": v})
         core = [i for i, (n, _) in enumerate(A) if n.startswith(("B-", "iface", "top", "two", "catchall-global"))]
-        for i in core[::2] if tier == "quick" else core:
+        for i in core[::2] if (tier == "quick" or v != "huawei") else core:
             out.append({"kind": "pair", "i": i, "j": core[(core.index(i) + 3) % len(core)], "vendor": v})
         for i in range(len(aclgen.merge_pairs())):
             out.append({"kind": "mpair", "i": i, "vendor": v})
@@ -199,7 +199,8 @@ def run_block(block, ctx):
         rows[-1] = "x"
     compiled = compile_acl_text(text, vendor)
     fs = [f for f in mcenum.forests(rows, 3, 3)]
-    fs_new = fs if ctx.tier == "thorough" else [f for f in mcenum.forests(rows, 2, 3)]
+    # thorough: the full 3x3-node product for huawei, (3,2) for the second vendor
+    fs_new = fs if (ctx.tier == "thorough" and vendor == "huawei") else [f for f in mcenum.forests(rows, 2, 3)]
     for old in fs:
         if ctx.expired():
             return
